@@ -423,7 +423,48 @@ def c13(ctx):
                                "edits are not modelled yet"])
 
 
+# ---------------------------------------------------------------------------
+# C20  hook scripts stay inside the sandbox API and stop within their timeout
+
+def c20(ctx):
+    known, asbuilt = devsets("C20")
+    mc = model_check(ctx, "MC_Sandbox", dict(constants={"Apis": {"matchRegex", "strSplit", "gitReadBlob"}},
+                                             invariants=["ConstructionConfines", "Teeth"], constraints=["Emit"]), workers=4, timeout=1800)
+    scns, seen = [], set()
+    for x in mc.records:
+        k = json.dumps(x, sort_keys=True)
+        if x.get("t") == "SCN" and k not in seen:
+            seen.add(k)
+            scns.append(x)
+    if not scns:
+        raise Infra("TLC emitted no programs")
+    scn_path = os.path.join(ctx.scratch, "scn.ndjson")
+    write_ndjson(scn_path, scns)
+    trace = os.path.join(ctx.scratch, "trace.ndjson")
+    run_vh(ctx, ["sandbox", "-scn", scn_path, "-out", trace, "-seed", ctx.seed], timeout=1800)
+    cls = validate_trace(ctx, "Trace_Sandbox", trace, {"Known": known, "AsBuilt": known, "TimeoutMs": 1000, "EpsMs": 1500}, shards=1)
+    lines = {x["id"]: x for x in read_ndjson(trace)}
+    tally = Tally(ctx)
+    for rec in cls:
+        r = rec["r"]
+        ln = lines[rec["id"]]
+        item = None
+        if r["cls"] != "conform":
+            item = {"kind": rec["kind"], "why": r.get("why"), "prog": ln["prog"], "obs": ln["obs"],
+                    "env_anomalies": ln["env"].get("anomalies")}
+        tally.add(r["cls"], item, dev=r.get("dev"), nontrivial_key=rec["id"])
+    env = lines[1]["env"]
+    samples = [{"environment_globals": sorted(env["globals"]), "protected": env["prot"]}, {"program": scns[0]["prog"]}]
+    return finish(ctx, tally, samples=samples, traces=len(cls), exhaustive=True,
+                  assumptions=["the closure of the real environment is walked from the Go side through the verif accessor (globals, "
+                               "library tables, metatables, string metatable, function environments, upvalues): an over-approximation "
+                               "of what a script can reach", "that the allow-listed library functions are pure is gopher-lua's semantics "
+                               "and is trusted", "timeouts are judged with a 1.5 s tolerance and a hard outer deadline of 21 s",
+                               "hook selection per principal (InvokeHooksForStage) is not exercised yet"])
+
+
 CHECKS = {
+    "C20": c20,
     "C13": c13,
     "C01": c01,
     "C02": c02,
